@@ -278,9 +278,63 @@ def _ill_conditioned(stg, F, ps, pg, ins):
                 q.initialization.values = {k: np.nextafter(np.asarray(x, dtype=float), direction) for k, x in q.initialization.values.items()}
             if _cmp(base, H.arrays(H.simulate(stg, F, q, pg, ins))):
                 return True
+        if pg is not None:
+            # the same for the program set: every number that a spreadsheet cell cannot hold exactly (16 significant digits) is
+            # moved by its rounding error in the opposite direction (e.g. an outcome that reaches exactly 1.0 under floor())
+            def mirror(x):
+                x = float(x)
+                return x - (float("%.16G" % x) - x) if np.isfinite(x) else x
+
+            g = sc.dcp(pg)
+            for prog in g.programs.values():
+                for ts in (prog.spend_data, prog.unit_cost, prog.capacity_constraint, prog.saturation, prog.coverage):
+                    ts.vals = [mirror(x) for x in ts.vals]
+                    if ts.assumption is not None:
+                        ts.assumption = mirror(ts.assumption)
+            for cv in g.covouts.values():
+                old_base = cv.baseline
+                cv.baseline = mirror(cv.baseline)
+                for k in cv.progs:
+                    cv.progs[k] = mirror(cv.progs[k])
+                for k in cv._interactions:
+                    cv._interactions[k] += old_base - cv.baseline
+                cv.update_outcomes()
+            if _cmp(base, H.arrays(H.simulate(stg, F, ps, g, ins))):
+                return True
     except Exception:
         return False
     return False
+
+
+def _ill_conditioned_framework(stg, F, D, spec, pg, ins):
+    """control experiment for the framework round trip: every number of the in-memory framework that a spreadsheet cell cannot hold
+    exactly (16 significant digits, e.g. the timescale 1/365) is moved by the same amount in the opposite direction; if that alone
+    moves the trajectory beyond the tolerance (floor() of a compartment size, comparisons, 1e9 people) the comparison with the
+    re-read framework is not decidable at 1e-9 and is counted as inconclusive"""
+    import atomica as at
+    import sciris as sc
+
+    def run(Fx):
+        ps = at.ParameterSet(Fx, D, "control")
+        build.apply_factors(spec, ps)
+        return H.arrays(H.simulate(stg, Fx, ps, pg, ins))
+
+    try:
+        F1 = sc.dcp(F)
+        moved = 0
+        for df in (F1.comps, F1.characs, F1.pars, F1.interactions):
+            for col in df.columns:
+                if df[col].dtype.kind != "f":
+                    continue
+                for idx, x in df[col].items():
+                    if x == x and np.isfinite(x) and float("%.16G" % x) != x:
+                        df.at[idx, col] = x - (float("%.16G" % x) - x)
+                        moved += 1
+        if not moved:
+            return False
+        return bool(_cmp(run(F), run(F1)))
+    except Exception:
+        return False
 
 
 def _labels(case, extra=()):
@@ -412,7 +466,7 @@ def check_rt_framework(case):
             pg2 = H.rt_progset(pg, F2, D) if pg is not None else None
             arr1 = H.arrays(H.simulate(stg, F2, ps2, pg2, ins))
             c = _cmp(arr0, arr1, same)
-            if c and _ill_conditioned(stg, F, ps, pg, ins):
+            if c and (_ill_conditioned(stg, F, ps, pg, ins) or _ill_conditioned_framework(stg, F, D, case["spec"], pg, ins)):
                 inconclusive = 1
             elif c:
                 v.add("rt-framework/behaviour", "simulation with the re-read framework differs (content %s): %r" % ("bit-identical" if same else "1e-14", c))
